@@ -62,6 +62,8 @@ def descr(prog, t):
         nm = short(t[1])
         if t[1].startswith(("cw_storage_plus::", "cw_controllers::")) and t[2]:
             inner = t[2][0]
+            if nm in ("Map::keys", "Map::range_raw", "Map::keys_raw"):
+                nm = "Map::range"  # the same scan as far as "is there a first / last entry" goes
             if inner[0] == "call" and inner[1].startswith("cw_storage_plus::"):
                 return "%s(%s)" % (nm, descr(prog, inner))
             return "%s(%s)" % (nm, ns_of(prog, t[2][0]))
